@@ -12,7 +12,7 @@ CHECKS = {
    technique="deterministic simulation: nested-transaction reference model for sequential histories, seeded thread schedules with resize pressure for isolation/atomicity, crash-point enumeration around commit",
    note="Trusted base: hooks H1/H2 and the crash points (MANIFEST.hooks); batches prepared concurrently stay below the 10% headroom of the enlarged map (the envelope of the allocation policy); process death, not power loss."),
  "C17": dict(engine="schedsim", cat="exploration", ref="5/C17",
-   text="Seeded schedule exploration: a fixed multiset of operations (peers submitting bodies of competing forks, a headers thread delivering the fork branch header-first while bodies already arrive, readers incl. validate_tx of an always-valid and a never-valid transaction, template builder, segment server, compactor - every fourth case on an 87-92 block chain where compaction really acts) runs on 4-8 real OS threads against one real Chain; a baton scheduler hooked into grin_util's lock types, the LMDB writer token, the labelled durable steps and sleeps lets exactly one thread run and picks the next one from a seeded PRNG at every such point; in half of the runs one to three threads are additionally stalled for hundreds of scheduling points at random places, and a third of the plans are "leapfrog" plans in which two peers alternate along a branch (parent being accepted while the child is classified as an orphan). Checked: no deadlock, no panic, every observed head names a stored block of matching height/difficulty, head difficulty never decreases per reader, reads never fail; at join the head is the unique most-work block, validate(false) passes and the unspent view equals the replayed ledger. Every run is in a forked child; a recorded choice list replays to the identical trace.",
+   text="Seeded schedule exploration: a fixed multiset of operations (peers submitting bodies of competing forks, a headers thread delivering the fork branch header-first while bodies already arrive, readers incl. validate_tx of an always-valid and a never-valid transaction, template builder, segment server, compactor - every fourth case on an 87-92 block chain where compaction really acts) runs on 4-8 real OS threads against one real Chain; a baton scheduler hooked into grin_util's lock types, the LMDB writer token, the labelled durable steps and sleeps lets exactly one thread run and picks the next one from a seeded PRNG at every such point; in half of the runs one to three threads are additionally stalled for hundreds of scheduling points at random places, and a third of the plans are leapfrog plans in which two peers alternate along a branch (parent being accepted while the child is classified as an orphan). Checked: no deadlock, no panic, every observed head names a stored block of matching height/difficulty, head difficulty never decreases per reader, reads never fail; at join the head is the unique most-work block, validate(false) passes and the unspent view equals the replayed ledger. Every run is in a forked child; a recorded choice list replays to the identical trace.",
    technique="deterministic simulation: seeded scheduler controlling real threads at lock/commit points with deadlock detection and sequential-outcome oracle",
    note="Trusted base: hooks H1/H2 (lock wrappers model parking_lot's writer preference; LMDB writer mutex shadowed by a token); scheduling granularity is lock operations, durable steps and sleeps."),
  "C16": dict(engine="pibdsim", cat="exploration", ref="5/C16",
